@@ -357,7 +357,7 @@ ORDER_FREE = {'sorted', 'sorted_definitions', '_sort_names_by_start_pos', 'set',
               'ValueSet', 'from_sets'}     # a ValueSet is a set again: the order of what goes in is immaterial
 SET_SEQ_TRIAGED = {
     # construct key -> why the order of this in-place set does not reach a result
-    'jedi.inference.references:find_references|set((d.get_root_context() for d in found_names))':
+    'jedi.inference.references:find_references|{d.get_root_context() for d in found_names}':
         'only decides which modules are searched; every API method that reaches find_references sorts its result (sorted_definitions)',
 }
 
